@@ -505,6 +505,90 @@ class AuditProbe(Harness):
         return label
 
 
+class BannerVersion(Harness):
+    """real audit() of a server whose handshake is well-formed and whose identification string names a recognised product followed by ARBITRARY version text
+    (digits, dots, 'p'): whatever the version looks like (empty components, leading dot, ...) the audit ends with a complete report and a status from {0,2,3}."""
+    prop, ob = PROP, 'O7'
+    width = 64
+    VCH = ((0x30, 0x39), (0x2E, 0x2E), (0x70, 0x70))
+
+    def __init__(self, product, n):
+        self.product, self.n = product, n
+        self.name = 'banner-version-%s-%d' % (product.strip('_-'), n) + ('dash' if product.endswith('-') else '')
+        self.deadline_s = 1500
+
+    def params(self):
+        return {'product': self.product, 'n': self.n}
+
+    def inputs(self):
+        return {'v': zx.fresh_str('v', self.n, self.VCH)}
+
+    def run(self, M, inp):
+        if zx.active():
+            zx.cur().stdout = []
+        ban = b'SSH-2.0-' + self.product.encode() + inp['v'].encode('utf-8') + b'\r\n'
+        pk = kexinit_pkt(['curve25519-sha256', 'diffie-hellman-group14-sha1'], ['ssh-ed25519', 'ssh-rsa'])
+        conns = [AE.Conn([ban, pk])] + [AE.Conn([ban, pk], 'close') for _ in range(6)]
+        r = AE.run_audit(M, conns)
+        return {'ret': r['ret'], 'alg': has_alg_lines(r['lines'])}
+
+    def check(self, inp, obs):
+        st = status_of(obs['ret'])
+        yield 'documented-status', st is not None
+        if st is not None:
+            yield 'report-complete-whatever-the-version-text', obs['alg'] and st in (0, 2, 3)
+
+    def classify(self, inp, obs, label):
+        r = obs['ret']
+        if isinstance(r, Exc):
+            return 'banner-version(%s):%s' % (self.product, r.type)
+        return label
+
+
+class PaddingCut(Harness):
+    """the first KEXINIT packet is cut k bytes before its end (inside the trailing padding) and the peer closes: the handshake is not well-formed, so the audit
+    ends with status 1 and no algorithm report; the same bytes delivered in full are accepted."""
+    prop, ob = PROP, 'O7'
+    width = 64
+
+    def __init__(self, k, padlen=8):
+        self.k, self.padlen = k, padlen
+        self.name = 'padding-cut-%d-of-%d' % (k, padlen)
+
+    def params(self):
+        return {'k': self.k, 'padlen': self.padlen}
+
+    def inputs(self):
+        # the packet's bytes are echoed in the error text; two representative padding values keep that rendering enumerable
+        b = zx.fresh_bytes('padbyte', 1)
+        if zx.active():
+            zx.cur().assume(s_or(b[0] == 0, b[0] == 0x41))
+        return {'pad': b + b'\x00' * (self.padlen - 1)}
+
+    def run(self, M, inp):
+        if zx.active():
+            zx.cur().stdout = []
+        payload = AE.kexinit_payload(['curve25519-sha256'], ['unknown-key-type'], ['aes128-ctr'], ['hmac-sha2-256'])
+        # independent framing with an explicit padding length (RFC 4253 section 6): length = 1 + payload + padding, total a multiple of 8
+        base = (1 + len(payload) + 4) % 8
+        padlen = self.padlen
+        while (base + padlen) % 8 or padlen < 4:
+            padlen += 1
+        pad = inp['pad'] + b'\x00' * (padlen - self.padlen)
+        pkt = AE.u32(1 + len(payload) + padlen) + bytes([padlen]) + payload + pad
+        conns = [AE.Conn([BANNER, pkt[:len(pkt) - self.k]], 'close')] + [AE.Conn([BANNER, pkt], 'close') for _ in range(3)]
+        r = AE.run_audit(M, conns)
+        return {'ret': r['ret'], 'alg': has_alg_lines(r['lines']), 'nconn': len(r['net'].made)}
+
+    def check(self, inp, obs):
+        st = status_of(obs['ret'])
+        yield 'documented-status', st is not None
+        if self.k == 0:
+            yield 'complete-packet-accepted', obs['alg'] and st in (0, 2, 3)
+        else:
+            yield 'packet-cut-inside-its-padding-is-not-a-handshake', st == 1 and not obs['alg'] and obs['nconn'] == 1
+
+
 def tasks(tier):
     q = tier == 'quick'
     T = []
@@ -559,6 +643,14 @@ def tasks(tier):
         for n in ((0, 4, 8) if q else (0, 3, 4, 7, 8, 12, 16)):
             T.append(AuditProbe(sc, n))
         T.append(AuditProbe(sc, 12 if q else (20 if sc not in ('hostkey-via-gex', 'gexgroup') else 14), 31))
+    for prod in ('OpenSSH_', 'dropbear_', 'libssh_', 'libssh-'):
+        for n in (((1, 2) if prod == 'OpenSSH_' else (1, 2, 3)) if q else (1, 2, 3, 4)):
+            T.append(BannerVersion(prod, n))
+    for k in ((0, 1, 4, 8) if q else range(0, 9)):
+        T.append(PaddingCut(k))
+    if not q:
+        for k in (1, 5):
+            T.append(PaddingCut(k, 12))
     return T
 
 
@@ -580,6 +672,10 @@ def harness_by_name(name, params):
         return VersionFallback(params['n'])
     if k.startswith('audit-first'):
         return AuditFirstConn(params['n'], params['sshv'], params['end'], params['framed'], params.get('dom', 'any'))
+    if k.startswith('banner-version'):
+        return BannerVersion(params['product'], params['n'])
+    if k.startswith('padding-cut'):
+        return PaddingCut(params['k'], params.get('padlen', 8))
     if k.startswith('audit-probe'):
         return AuditProbe(params['scenario'], params['n'], params['ptype'])
     raise KeyError(name)
